@@ -4,25 +4,42 @@ import time
 
 
 class StepTimeout(Exception):
-    """inner, generous wall-clock watchdog fired: the step is INCONCLUSIVE, never a violation"""
+    """inner, generous watchdog fired: the step is INCONCLUSIVE, never a violation"""
+
+
+WALL_FACTOR = 12  # the wall-clock backstop of a CPU-time limit
 
 
 @contextlib.contextmanager
 def time_limit(seconds):
-    """Nested-safe wall-clock limit (restores the outer alarm with the time that is left)."""
-    old_handler = signal.getsignal(signal.SIGALRM)
-    old_left = signal.getitimer(signal.ITIMER_REAL)[0]
-    t0 = time.time()
+    """Nested-safe watchdog.  The limit is on the CPU time of this process (ITIMER_PROF), so a loaded machine cannot make a healthy step look
+    hung; a wall-clock backstop of WALL_FACTOR x seconds (ITIMER_REAL) catches a step that sleeps.  Outer timers are restored with the time
+    that is left for them."""
+    old_prof_handler = signal.getsignal(signal.SIGPROF)
+    old_prof_left = signal.getitimer(signal.ITIMER_PROF)[0]
+    old_real_handler = signal.getsignal(signal.SIGALRM)
+    old_real_left = signal.getitimer(signal.ITIMER_REAL)[0]
+    t0, c0 = time.time(), time.process_time()
 
     def handler(signum, frame):
         raise StepTimeout()
 
-    signal.signal(signal.SIGALRM, handler)
-    signal.setitimer(signal.ITIMER_REAL, seconds)
+    wall = WALL_FACTOR * seconds
+    signal.signal(signal.SIGPROF, handler)
+    signal.setitimer(signal.ITIMER_PROF, seconds)
+    inner_real = old_real_left <= 0 or wall < old_real_left
+    if inner_real:
+        signal.signal(signal.SIGALRM, handler)
+        signal.setitimer(signal.ITIMER_REAL, wall)
     try:
         yield
     finally:
-        signal.setitimer(signal.ITIMER_REAL, 0)
-        signal.signal(signal.SIGALRM, old_handler)
-        if old_left > 0:
-            signal.setitimer(signal.ITIMER_REAL, max(0.05, old_left - (time.time() - t0)))
+        signal.setitimer(signal.ITIMER_PROF, 0)
+        signal.signal(signal.SIGPROF, old_prof_handler if old_prof_handler is not None else signal.SIG_DFL)
+        if old_prof_left > 0:
+            signal.setitimer(signal.ITIMER_PROF, max(0.05, old_prof_left - (time.process_time() - c0)))
+        if inner_real:
+            signal.setitimer(signal.ITIMER_REAL, 0)
+            signal.signal(signal.SIGALRM, old_real_handler if old_real_handler is not None else signal.SIG_DFL)
+            if old_real_left > 0:
+                signal.setitimer(signal.ITIMER_REAL, max(0.05, old_real_left - (time.time() - t0)))
